@@ -255,7 +255,7 @@ func (p *Program) verifyFunc(key string, mode string) (u *Unit) {
 						return u
 					}
 					e.addObl(&Obligation{Name: fmt.Sprintf("%s#ensures[%s]@return%d", shortKey(key), clauseLabel(en), ri), Kind: "ensures", Func: shortKey(key),
-						Label: clauseLabel(en), Text: en.Text, Guard: r.reach, Goal: g, Contract: fc, Pos: relPath(p, p.Fset.Position(r.pos).String())})
+						Label: clauseLabel(en), Text: en.Text, Guard: r.reach, Goal: g, Contract: fc, Pos: relPath(p, p.Fset.Position(r.pos).String()), SkipTags: e.topFrame.skipTagsFor(en, "")})
 				}
 				continue
 			}
@@ -265,7 +265,7 @@ func (p *Program) verifyFunc(key string, mode string) (u *Unit) {
 				return u
 			}
 			e.addObl(&Obligation{Name: fmt.Sprintf("%s#ensures[%s]", shortKey(key), clauseLabel(en)), Kind: "ensures", Func: shortKey(key),
-				Label: clauseLabel(en), Text: en.Text, Guard: exitReach, Goal: g, Contract: fc, Pos: fmt.Sprintf("%s:%d", relPath(p, fc.File), fc.Line)})
+				Label: clauseLabel(en), Text: en.Text, Guard: exitReach, Goal: g, Contract: fc, Pos: fmt.Sprintf("%s:%d", relPath(p, fc.File), fc.Line), SkipTags: e.topFrame.skipTagsFor(en, "")})
 		}
 	}
 	e.addAxioms()
